@@ -130,6 +130,10 @@ def _list_to_blackbird(values):
             items.append('"{}"'.format(v))
         elif isinstance(v, complex):
             items.append("{}{}{}j".format(v.real, "+-"[int(v.imag < 0)], np.abs(v.imag)))
+        elif isinstance(v, sym.Expr):
+            # element contains free parameters
+            braces = {p: sym.Symbol("{" + str(p) + "}") for p in v.free_symbols}
+            items.append(_expr_to_blackbird(v.subs(braces)))
         else:
             items.append("{}".format(v))
 
